@@ -185,3 +185,45 @@ Definition nl_codes_step (s : bytes) (i : Z) (strict : bool) : stepres :=
        | Some (code, adv) =>
            if negb ((len <=? n + adv) || negb (iscont (rd s (n + adv)))) then StepErr else StepVal (n + 1) code
        end.
+
+(* ---- utf8.offset(s, n, i) ---- *)
+(* the loops are textually the same in lutf8lib.c byteoffset and utf8.nelua utf8.offset; p is 0-based *)
+Fixpoint off_start (f : nat) (s : bytes) (p : Z) : Z :=            (* while p > 0 and iscont(s[p]) do p-- *)
+  match f with O => p | S f' => if (0 <? p) && iscont (rd s p) then off_start f' s (p - 1) else p end.
+Fixpoint off_back1 (f : nat) (s : bytes) (p : Z) : Z :=            (* do p-- while p > 0 and iscont(s[p]) *)
+  match f with O => p | S f' => let p := p - 1 in if (0 <? p) && iscont (rd s p) then off_back1 f' s p else p end.
+Fixpoint off_fwd1 (f : nat) (s : bytes) (p : Z) : Z :=             (* do p++ while iscont(s[p]) *)
+  match f with O => p | S f' => let p := p + 1 in if iscont (rd s p) then off_fwd1 f' s p else p end.
+Fixpoint off_back (f : nat) (F : nat) (s : bytes) (p n : Z) : Z * Z :=
+  match f with O => (p, n) | S f' => if (n <? 0) && (0 <? p) then off_back f' F s (off_back1 F s p) (n + 1) else (p, n) end.
+Fixpoint off_fwd (f : nat) (F : nat) (s : bytes) (len p n : Z) : Z * Z :=
+  match f with O => (p, n) | S f' => if (0 <? n) && (p <? len) then off_fwd f' F s len (off_fwd1 F s p) (n - 1) else (p, n) end.
+
+(* from a valid 0-based position p: Some (Some pos) / Some None (no such character) / None (continuation byte) *)
+Definition offset_core (guard_at_len : bool) (s : bytes) (len p n : Z) : option (option Z) :=
+  let F := S (length s) in
+  if n =? 0 then Some (Some (off_start F s p + 1))
+  else if (if guard_at_len then negb (p =? len) else true) && iscont (rd s p) then None
+  else
+    let '(p', n') := if n <? 0 then off_back F F s p n else off_fwd F F s len p (n - 1) in
+    if n' =? 0 then Some (Some (p' + 1)) else Some None.
+
+Definition lua_utf8offset (s : bytes) (n i : Z) : lres (option Z) :=
+  let len := slen s in
+  let posi := lua_u_posrelat i len in
+  if negb ((1 <=? posi) && (posi - 1 <=? len)) then LErr            (* "position out of bounds" *)
+  else match offset_core false s len (posi - 1) n with
+       | None => LErr                                               (* "initial position is a continuation byte" *)
+       | Some r => LVal r
+       end.
+(* utf8.nelua utf8.offset (after 8181f7c: the continuation test is skipped at i == #s); -1 = no such character *)
+Definition nl_utf8offset (s : bytes) (n i : Z) : res Z :=
+  let len := slen s in
+  let i0 := nl_utf8relpos i len in
+  if negb ((0 <=? i0) && (i0 <=? len)) then Trap
+  else match offset_core true s len i0 n with
+       | None => Trap
+       | Some (Some v) => Val v
+       | Some None => Val (-1)
+       end.
+Definition offset_default (s : bytes) (n : Z) : Z := if 0 <=? n then 1 else slen s + 1.
